@@ -10,9 +10,10 @@
            demands AppendOK), the harness sends the projected trees back for TraceUnixFSFile. *)
 EXTENDS UnixFSFile
 CONSTANTS Kind, GN, GM, GWidths,
-          SmallN, SmallM, SmallW,    \* the exhaustive core of the case space ...
+          SmallN, SmallM, SmallW,    \* the exhaustive core of the case space: n <= SmallN, m <= SmallM for w <= SmallW,
+          Small2N, Small2M,          \* n <= Small2N, m <= Small2M for every w ...
           SampleMod, Salt,           \* ... and a 1/SampleMod sample of the rest (SampleMod = 1: everything)
-          PartSel                    \* residue (mod 5) of the append cases that also get short last chunks
+          PartSel                    \* residue (mod 7) of the append cases that also get short last chunks
 VARIABLES stage, case
 gvars == <<files, stage, case>>
 Groups == 16       \* initial states; their successors (the cases) are expanded by parallel TLC workers
@@ -26,8 +27,10 @@ ImportCases == {c \in [layout : {"bal", "tri"}, w : GWidths, lk : {"raw", "pb"},
                   /\ (c.short \/ c.meta) => (c.n <= SmallN \/ Sampled(c.n + 3 * c.w))}
 AppendCases == {c \in [w : GWidths, lk : {"raw", "pb"}, n : 0..GN, m : 1..GM, short : BOOLEAN, short2 : BOOLEAN] :
                   /\ c.n = 0 => ~c.short
-                  /\ (c.n <= SmallN /\ c.m <= SmallM /\ c.w <= SmallW) \/ Sampled(c.n * 61 + c.m * 7 + c.w)
-                  /\ (c.short \/ c.short2) => (c.n + 2 * c.m + c.w) % 5 = PartSel}
+                  /\ \/ (c.n <= SmallN /\ c.m <= SmallM /\ c.w <= SmallW)
+                     \/ (c.n <= Small2N /\ c.m <= Small2M)
+                     \/ Sampled(c.n * 61 + c.m * 7 + c.w)
+                  /\ (c.short \/ c.short2) => (c.n + 2 * c.m + c.w) % 7 = PartSel}
 
 ImportExpected(c) ==
     LET P    == [w |-> c.w, lk |-> c.lk, sz |-> Sizes(c.n, c.short)]
